@@ -75,7 +75,18 @@ func checkSelect(sel *minipg.SelectStmt, ctes map[string]bool, problems *[]strin
 	for k := range ctes {
 		names[k] = true
 	}
+	// a CTE sees the CTEs written before it (and itself only under WITH RECURSIVE); the main query sees all of them
+	cteQuery := map[*minipg.SelectStmt]bool{}
 	for _, c := range sel.With {
+		visible := map[string]bool{}
+		for k := range names {
+			visible[k] = true
+		}
+		if sel.Recursive {
+			visible[strings.ToLower(c.Name)] = true
+		}
+		checkSelect(c.Query, visible, problems)
+		cteQuery[c.Query] = true
 		names[strings.ToLower(c.Name)] = true
 	}
 	var tables []*minipg.TableRef
@@ -144,7 +155,9 @@ func checkSelect(sel *minipg.SelectStmt, ctes map[string]bool, problems *[]strin
 			if x == sel {
 				return true
 			}
-			checkSelect(x, names, problems)
+			if !cteQuery[x] {
+				checkSelect(x, names, problems)
+			}
 			return false
 		case *minipg.FuncCall:
 			if ledgerFuncs[strings.ToLower(x.Name)] {
